@@ -125,10 +125,36 @@ func (c *clause) compilePred(p Term, env *Env) error {
 		c.bytecode = append(c.bytecode, instruction{opcode: opCall, operand: procedureIndicator{name: p, arity: 0}})
 		return nil
 	case Compound:
+		if err := checkControl(p, env); err != nil {
+			return err
+		}
 		for i := 0; i < p.Arity(); i++ {
 			c.compileBodyArg(p.Arg(i), env)
 		}
 		c.bytecode = append(c.bytecode, instruction{opcode: opCall, operand: procedureIndicator{name: p.Functor(), arity: Integer(p.Arity())}})
+		return nil
+	default:
+		return errNotCallable
+	}
+}
+
+// checkControl returns errNotCallable if a goal nested in the control constructs ','/2, ';'/2 and '->'/2 of t is a number.
+func checkControl(t Term, env *Env) error {
+	switch t := env.Resolve(t).(type) {
+	case Variable, Atom:
+		return nil
+	case Compound:
+		if t.Arity() != 2 {
+			return nil
+		}
+		switch t.Functor() {
+		case atomComma, atomSemiColon, atomThen:
+			for i := 0; i < 2; i++ {
+				if err := checkControl(t.Arg(i), env); err != nil {
+					return err
+				}
+			}
+		}
 		return nil
 	default:
 		return errNotCallable
